@@ -239,6 +239,23 @@ func (s *vfSim) runMonitors(mc vfMonCfg) *vfMonOut {
 						res.violate("C10", "fr/flag", "side %d: not in fast recovery after entry", h.Side)
 					}
 				}
+			case vfEvMiss3:
+				// a loss detected by three miss indications cuts cwnd (enters fast recovery) unless the
+				// sender already is in fast recovery: the very next hook event of this side is the entry
+				res.count("c10_miss3", 1)
+				if !h.Snap.InFR {
+					var next *vfHookEv
+					for _, x := range hooks {
+						if x.Seq > h.Seq && x.Side == h.Side {
+							next = x
+
+							break
+						}
+					}
+					if next == nil || next.Ev != vfEvFRBefore || next.TSN != h.TSN {
+						res.violate("C10", "fr/not-entered", "side %d: TSN %d got its third miss indication while not in fast recovery (cwnd %d) but cwnd/ssthresh were not cut", h.Side, h.TSN, h.Snap.CWND)
+					}
+				}
 			case vfEvRTTSample:
 				res.count("c19_rtt_samples", 1)
 				if h.NSent != 1 {
